@@ -9,25 +9,31 @@ META = dict(
     spec=SPEC,
     level_text=("TLC checks the engine model (want intake with in-message truncation, full-wantlist replacement, "
                 "filterOverflow/handleOverflow eviction, cancels, task queue with merging, NotifyNewBlocks, block removal, "
-                "envelope construction + MessageSent) exhaustively on a small universe: safety invariants incl. EvictionOrder "
+                "envelope construction (nextEnvelope) and MessageSent as separate steps with messages / block arrivals / removals "
+                "in the window between them, active-task rule of the task queue) exhaustively on a small universe: safety invariants "
+                "incl. EvictionOrder and UpgradeKeepsBlockTask "
                 "and the liveness property under fair envelope production. TLC-generated wantlist scripts (exhaustive depth-2/3 "
                 "pools; the exhaustive 'retype' family: want-type upgrades/downgrades across messages followed by block arrival, "
                 "block sizes at and just above the replace size, replacing on/off; the exhaustive 'overflow' family: a full "
                 "want-list of 3-4 wants with every stored/missing mix and priority vector hit by 2..limit newcomers, sampled evenly "
                 "over the model's handleOverflow branch classes; model-steered simulations: 1-3 peers, limit 1..5, equal/distinct "
-                "priorities, full/incremental, cancels, duplicate/identity/oversize CIDs) and random 40-message scripts (limit "
+                "priorities, full/incremental, cancels, duplicate/identity/oversize CIDs; the exhaustive 'window' family: one "
+                "envelope held between nextEnvelope and MessageSent while the peer re-types / cancels the want or the block "
+                "comes and goes) and random 40-message scripts (limit "
                 "1..32, block add/remove, partial drains) are executed on a real Engine; after every call WantlistForPeer, the "
                 "per-CID ledger index, the pending task topics and every envelope are compared by TLC with the specification "
                 "(TraceBitswapEngine)."),
     level_note=("Trusted: go-peertaskqueue heap/merge plumbing below PushTasksTruncated/PopTasks, the map blockstore, the harness "
                 "projection (CID<->number, entry order wrapper around the real message). One engine call = one atomic action "
-                "(races inside MessageReceived/nextEnvelope are not explored); empty blocks excluded."),
+                "(races inside MessageReceived/nextEnvelope are not explored; at most one envelope between nextEnvelope and "
+                "MessageSent); empty blocks excluded."),
     technique="TLA+ engine model with named as-built deviations; TLC BFS/simulation-generated scripts and random scripts run on the "
               "real Engine, recorded runs validated step by step by TLC",
 )
 
 ALL_DEVS = ["Dev_C36_OverflowSortDesc", "Dev_C36_FullKeepsStale", "Dev_C36_EvictedTask",
-            "Dev_C36_QueueTruncation", "Dev_C36_StaleHave"]
+            "Dev_C36_QueueTruncation", "Dev_C36_StaleHave", "Dev_C36_ActiveTaskHidesBlock",
+            "Dev_C36_SentHaveDropsOwedBlock"]
 
 
 def split_runs(recs):
@@ -56,7 +62,7 @@ def eviction_in(run):
         if r["ev"] in ("Recv", "Add"):
             for i, w in enumerate(r["wl"]):
                 prev[i + 1] = {x[0] for x in w}
-        elif r["ev"] == "Env":
+        elif r["ev"] in ("Env", "Sent"):
             prev[r["p"]] = {x[0] for x in r["wl"]}
     return False
 
@@ -146,14 +152,17 @@ def replay(ctx, binp, behs, name, outbox):
 
 def run(ctx):
     q = ctx.quick
-    ctx.assumptions += ["one engine call (MessageReceived / NotifyNewBlocks / nextEnvelope+MessageSent) is one atomic step",
+    ctx.assumptions += ["one engine call (MessageReceived / NotifyNewBlocks / nextEnvelope / MessageSent+Sent) is one atomic step; "
+                        "at most one envelope is between nextEnvelope and MessageSent",
                         "blocks are stored and announced atomically (Put + NotifyNewBlocks), removals are silent",
                         "all tasks of a peer fit one envelope (harness blocks are small)",
                         "wantlist entry order of a message is an input (real messages iterate a map)"]
     ctx.cov["rule"] = ("G: TLC enumerates every script of 2 (quick, sampled) / 2-3 steps over a small entry pool, every 'retype' "
                        "script (same CID wanted twice with different want types, then its block announced; 3 / 4 steps), every "
                        "'overflow' script (full want-list of 3 / 3-4 wants, all stored/missing mixes and priority vectors, one "
-                       "message with 2..limit newcomers; the same number of scripts is taken from every handleOverflow branch class "
+                       "message with 2..limit newcomers; the same number of scripts is taken from every handleOverflow branch class; every "
+                       "'window' script: one CID, a want, nextEnvelope HELD, 1-3 messages / block arrivals / removals inside the "
+                       "window, MessageSent; sampled over the shapes "
                        "= arrangement of stored/missing wants in priority order x newcomers x evicted x refused) and simulates "
                        "7-step scripts steered by the model state; T: seeded random 40-message scripts. Every script runs on a "
                        "real Engine (direct nextEnvelope and via the outbox worker); TLC validates every recorded call. "
@@ -193,6 +202,7 @@ def run(ctx):
     gens = [("bfs", gen("GenBitswapEngine.cfg" if q else "GenBitswapEngineT.cfg")),
             ("retype", gen("GenBitswapEngineR.cfg" if q else "GenBitswapEngineR4.cfg")),
             ("over", gen("GenBitswapEngineO.cfg" if q else "GenBitswapEngineOT.cfg", workers=4 if q else 8)),
+            ("window", gen("GenBitswapEngineW.cfg", workers=2 if q else 4)),
             ("sims", lambda: ctx.tlc_gen(SPEC, "GenBitswapEngine.tla", "GenBitswapEngineSim.cfg", simulate=6 if q else 20,
                                          depth=8 * (10 if q else 25) + 1, timeout=1800))]
     if not q:
@@ -231,7 +241,34 @@ def run(ctx):
     retype = cut(res["retype"], 150 if q else 1000)       # quick: the whole family (128 scripts)
     over = per_class(res["over"], 4 if q else 12) + (per_class(res["over4"], 6) if not q else [])
     sims = res["sims"]
-    fam = bfs + d3 + retype + over
+
+    def win_class(b):
+        """shape of a 'window' script: the want types / cancels / block arrivals and removals before the held envelope
+        ('|' = nextEnvelope) and inside the window ('^' = MessageSent)"""
+        o = []
+        for st in b["steps"]:
+            if st["op"] == "Recv":
+                e = st["es"][0]
+                o.append("c" if e[3] else e[2])
+            else:
+                o.append({"Add": "A", "Remove": "R", "Hold": "|", "Release": "^"}[st["op"]])
+        return "".join(o)
+    wcl = {}
+    for b in canon(res["window"]):
+        wcl.setdefault(win_class(b), []).append(b)
+    wkeys = sorted(wcl)
+    if q and len(wkeys) > 150:
+        wkeys = sorted(ctx.rng.sample(wkeys, 150))
+    window = [x for k in wkeys for x in (ctx.rng.sample(wcl[k], 1 if q else 3) if len(wcl[k]) > (1 if q else 3) else wcl[k])]
+    upg = [k for k in wkeys if re.match(r"^H[^|]*\|[^\^]*B", k)]
+    ctx.log("family window: %d scripts in %d shapes, %d taken from %d shapes (%d with a want-have upgraded inside the window)" %
+            (len(res["window"]), len(wcl), len(window), len(wkeys), len(upg)))
+    if len(upg) < 5:
+        ctx.broken("window family: fewer than 5 replayed shapes upgrade a want-have between nextEnvelope and MessageSent (vacuous)")
+        return
+    ctx.cov["window_family"] = dict(enumerated=len(res["window"]), shapes=len(wcl), replayed=len(window),
+                                    replayed_shapes=len(wkeys), upgrade_in_window_shapes=len(upg))
+    fam = bfs + d3 + retype + over + window
     grecs = []
     for name, behs, outbox in (("bfs", fam, False), ("sim", sims, False),
                                ("simob", sims, True), ("bfsob", fam[::3], True)):
